@@ -28,6 +28,9 @@ def op_alphabet():
     return puts + dels
 
 
+READ = {"t": "read", "n": "", "b": 0, "cond": 0}
+
+
 def _quiet():
     logging.disable(logging.CRITICAL)
     try:
@@ -54,9 +57,16 @@ def _work(job):
                         i = rng.randint(0, na)
                         j = rng.randint(1, max(1, nb))
                         plans.append([("A", i), ("B", j), ("A", None)])
-                for plan in plans:
-                    r = rd.run_schedule(tmpl, opa, opb, plan, shared=job["shared"])
+                for pi, plan in enumerate(plans):
+                    # every third run is followed by a put of a third name carrying the content
+                    # (hence the UID) one of the overlapped puts used
+                    opc = None
+                    if pi % 3 == 2:
+                        b = [o["b"] for o in (opa, opb) if o["t"] == "put"]
+                        opc = {"t": "put", "n": "c", "b": b[pi % len(b)] if b else 5, "cond": 0}
+                    r = rd.run_schedule(tmpl, opa, opb, plan, shared=job["shared"], opc=opc)
                     ts = sorted([opa["t"], opb["t"]])
+                    ts = [{"read": "read"}.get(x, x) for x in ts]
                     r["pair"] = "%s-%s" % (ts[0], ts[1])
                     out.append(r)
         finally:
@@ -100,6 +110,37 @@ def model_race_classes(kind, timeout=1500):
             "distinct": res["distinct"]}
 
 
+def reader_overlap(rep, tier, seed):
+    """Used by C02: a full read of the collection overlapping a write (every preemption point of
+    the writer) must not leave the long-lived store object serving stale etags / bytes."""
+    ops = op_alphabet()
+    rng = random.Random(seed + 77)
+    sel = ops if tier != "quick" else rng.sample(ops, 8)
+    jobs = []
+    for kind in ("tree", "bare"):
+        for i in range(0, len(sel), 2):
+            jobs.append({"kind": kind, "shared": True, "pairs": [(o, READ) for o in sel[i:i + 2]],
+                         "deep": 0, "seed": rng.randrange(1 << 30)})
+    with multiprocessing.get_context("fork").Pool(15) as pool:
+        outs = pool.map(_work, jobs, chunksize=1)
+    runs = []
+    for o in outs:
+        if not o["ok"]:
+            common.machinery_failure("harness exception:\n" + o["error"])
+        runs.extend(o["runs"])
+    for i, r in enumerate(runs):
+        r["id"] = i + 1
+    verdicts, tstates = judge(runs, {})
+    for r in runs:
+        v = verdicts[r["id"]]
+        if v["k"] == "viol":
+            rep.violation("%s: a read overlapping a write: %s ops=%s results=%s served-afterwards-equals-disk=%s plan=%s" % (
+                v["dev"], v["clause"], json.dumps(r["ops"]), json.dumps(r["res"]), r["views_ok"], json.dumps(r["plan"])),
+                {"property": rep.prop, "verdict": v, "run": r})
+    rep.coverage["reader_overlap_runs"] = len(runs)
+    return len(runs)
+
+
 def run(prop, tier, seed, replay=None):
     rep = common.Report(prop, tier, seed, "model_checking")
     devs = common.open_devs("Lin")
@@ -111,7 +152,9 @@ def run(prop, tier, seed, replay=None):
         tmpl = rd.Template(r["run"]["kind"], {"a": 1})
         try:
             plan = [(w, None if n == -1 else n) for (w, n) in r["run"]["plan"]]
-            got = rd.run_schedule(tmpl, r["run"]["ops"]["A"], r["run"]["ops"]["B"], plan, shared=r["run"]["shared"])
+            oc = r["run"]["ops"].get("C")
+            got = rd.run_schedule(tmpl, r["run"]["ops"]["A"], r["run"]["ops"]["B"], plan, shared=r["run"]["shared"],
+                                  opc=oc if oc and oc.get("t") != "none" else None)
             got["pair"] = r["run"]["pair"]
             got["id"] = 1
         finally:
@@ -126,7 +169,9 @@ def run(prop, tier, seed, replay=None):
         if quick:
             # every pair of kinds is kept; within a kind pair a sample of the concrete arguments
             rng.shuffle(pairs)
-            pairs = pairs[:70]
+            pairs = pairs[:62]
+        # a reader overlapping a writer: every write operation with a concurrent full read
+        pairs += [(o, READ) for o in (ops if not quick else rng.sample(ops, 8))]
         jobs = []
         for kind in ("tree", "bare"):
             for shared in (True, False):
